@@ -34,6 +34,40 @@ def queries(tier):
                 qs.append(Query("%s-tx-nr%d-dest%d" % (proto, nr, dest), "c13/xrep.c", tus=TUS, env=ENV, defs=d, cdefs=["-DENV_MSG_CAP=80"],
                                 unwind=20, unwind_rules=KIT_RULES, timeout=300,
                                 params={"lemma": "L2 send", "protocol": proto, "remaining_words": nr, "destination": ["pipe0", "pipe1", "unknown id"][dest]}))
+    qs += device_queries(tier)
+    return qs
+
+
+DEV_ENV = ["env_alloc.c", "env_misc.c", "env_sync.c", "env_aio.c", "env_msg.c", "env_libc.c"]
+DEV_TUS = ["core/list.c"]
+
+
+def device_queries(tier):
+    """L4: the real core/device.c forwarder over stub raw sockets"""
+    from vp import skel
+    qs = []
+    k = 3 if tier == "quick" else 5
+    for kind, alpha in ((0, ["R(0,1)", "R(0,0)", "R(1,1)", "R(1,0)", "T(0,1)", "T(0,0)", "T(1,1)", "T(1,0)", "X"]),
+                        (1, ["R(0,1)", "R(0,0)", "T(0,1)", "T(0,0)", "X"]),
+                        (2, ["R(0,1)", "R(0,0)", "T(0,1)", "T(0,0)", "X"])):
+        words = ["R(0,1) T(0,1) R(0,1) T(0,1) X", "R(0,1) R(1,1) T(1,1) T(0,1) R(1,1) X" if kind == 0 else "R(0,1) T(0,1) R(0,0)",
+                 "R(0,1) R(1,1) T(0,0)" if kind == 0 else "R(0,1) X", "R(0,1) X", "X", "R(0,1) R(1,1) X" if kind == 0 else "R(0,1) T(0,0)"]
+        words += skel.enumerate_words(alpha, k, first=["R(0,1)", "R(0,0)", "R(1,1)", "X"], limit=60 if tier == "quick" else 1500, suffix="")
+        seen = set()
+        for w in words:
+            # only executable words: a T needs a preceding successful R on that path (others end early; still sound, just wasteful)
+            if w in seen:
+                continue
+            seen.add(w)
+            d = {"KIND": kind, "SKEL": w}
+            if w in ("X", "R(0,0)", "R(0,1) X"):
+                d["FINI"] = 1   # the reaper's device_fini is run as well (slow: only on the shortest words)
+            qs.append(Query("device-k%d-%s" % (kind, skel.tag(w)), "c13/device.c", tus=DEV_TUS, env=DEV_ENV, defs=d,
+                            unwind=10, unwind_rules=KIT_RULES, timeout=300, group="c13/device.c",
+                            params={"lemma": "L4 device forwarder", "kind": ["two-way", "one-way", "reflector"][kind], "skeleton": w}))
+    for bad in (1, 2, 3, 4):
+        qs.append(Query("device-refused-%d" % bad, "c13/device.c", tus=DEV_TUS, env=DEV_ENV, defs={"KIND": 0, "BADPAIR": bad}, unwind=10,
+                        unwind_rules=KIT_RULES, timeout=120, group="~device-refused", params={"lemma": "device refuses non-peer / cooked sockets", "case": bad}))
     return qs
 
 MANIFEST = {
